@@ -503,3 +503,116 @@ Proof.
   exists 8, neg_literal, (Qmake 440 1), [PlayTone (Qmake 65536 1) None].
   vm_compute. apply Exists_cons_hd. discriminate.
 Qed.
+
+(* ------------------------------------------------------------------ tone(pin, 0) *)
+Lemma tone_of_ge1 f : qle qhalf f = true -> 1 <= tone_of f.
+Proof.
+  intro H. apply qle_true in H. unfold tone_of. change 1 with (Qfloor 1).
+  apply Qfloor_resp_le. unfold qhalf in *. lra.
+Qed.
+
+Lemma tone_zero_iff : forall f, (0 < f)%Q -> (tone_of f = 0 <-> (f < 1 # 2)%Q).
+Proof.
+  intros f Hp. split; intro H.
+  - apply Qnot_le_lt. intro Hc.
+    assert (H1 : 1 <= tone_of f) by (apply tone_of_ge1; apply qle_true; exact Hc). lia.
+  - assert (H0 : 0 <= tone_of f).
+    { unfold tone_of. change 0 with (Qfloor 0). apply Qfloor_resp_le. unfold qhalf. lra. }
+    assert (H1 : tone_of f < 1).
+    { unfold tone_of. rewrite Zlt_Qlt. eapply Qle_lt_trans; [apply Qfloor_le|]. unfold qhalf. change (inject_Z 1) with 1%Q. lra. }
+    lia.
+Qed.
+
+Lemma audible_pos f : audible_arg f = true -> qlt q0 f = true -> qle qhalf f = true.
+Proof.
+  unfold audible_arg. intros H Hp. apply orb_true_iff in H as [H|H]; [|exact H].
+  rewrite qle_qlt, Hp in H. discriminate.
+Qed.
+
+Lemma Forall_repeat {A} (Q : A -> Prop) x n : Q x -> Forall Q (repeat x n).
+Proof. intro H. induction n; cbn; constructor; auto. Qed.
+
+Lemma sweep_freq_ge_half s e n i : (qhalf <= s)%Q -> (qhalf <= e)%Q -> 1 <= n -> 0 <= i <= n - 1 ->
+  (qhalf <= sweep_freq s e n i)%Q.
+Proof.
+  intros Hs He Hn Hi. unfold sweep_freq.
+  assert (Hx : (qhalf <= s + (e - s) * (if n =? 1 then 1 # 1 else inject_Z i / (inject_Z n - (1 # 1))))%Q).
+  { destruct (n =? 1) eqn:E.
+    - setoid_replace (s + (e - s) * (1 # 1))%Q with e by ring. exact He.
+    - apply Z.eqb_neq in E. destruct (progress_range n i ltac:(lia) Hi) as [H0 H1].
+      set (p := (inject_Z i / (inject_Z n - (1 # 1)))%Q) in *. unfold qhalf in *. nra. }
+  unfold clamp0. destruct (qlt _ q0) eqn:Ec; [|exact Hx].
+  apply qlt_true in Ec. unfold qhalf, q0 in *. lra.
+Qed.
+
+Lemma Forall_map_filter_seq (R : Z -> Prop) (h : nat -> Z) (keep : nat -> bool) a k :
+  (forall j, (a <= j < a + k)%nat -> keep j = true -> R (h j)) ->
+  Forall R (map h (filter keep (seq a k))).
+Proof.
+  revert a. induction k as [|k IH]; intros a H; [constructor|].
+  cbn [seq filter]. destruct (keep a) eqn:E.
+  - cbn [map]. constructor; [apply H; [lia|exact E]|]. apply IH. intros j Hj. apply H. lia.
+  - apply IH. intros j Hj. apply H. lia.
+Qed.
+
+(* C16_no_zero_tone_partial *)
+Lemma no_zero_tone : forall pin neg tbl st o,
+  half_guard tbl (get_last_frequency st) o = true ->
+  Forall (fun t => 1 <= t) (tones (snd (dstep pin neg tbl st o))).
+Proof.
+  intros pin neg tbl st o H. unfold get_last_frequency in H.
+  destruct o as [f dur| |f on off times|s e dq steps|name tempo]; cbn [half_guard] in H.
+  - destruct (qlt q0 f) eqn:E.
+    + destruct (play_tone_protocol pin neg tbl st f (match dur with Some d => d | None => q0 end)) as [Hp _].
+      destruct (Hp E) as [H1 H2]. pose proof (tone_of_ge1 f (audible_pos f H E)) as Hg.
+      destruct dur as [d|].
+      * rewrite H2. cbn [snd]. rewrite !tones_app, tones_dl. cbn. repeat constructor. exact Hg.
+      * rewrite H1. cbn. repeat constructor. exact Hg.
+    + rewrite nonpositive_never_tones; [constructor|]. cbn. rewrite qle_qlt, E. reflexivity.
+  - cbn. constructor.
+  - destruct (beep_counts pin neg tbl st f on off times) as [Hpos Hneg].
+    set (target := clamp0 (match f with Some x => x | None => get_last_frequency st end)) in *.
+    destruct (qlt q0 target) eqn:E.
+    + destruct (Hpos eq_refl) as (_ & Ht & _). rewrite Ht. apply Forall_repeat.
+      apply tone_of_ge1.
+      assert (Ha : audible_arg (match f with Some x => x | None => get_last_frequency st end) = true).
+      { destruct f; exact H. }
+      assert (Hp : qlt q0 (match f with Some x => x | None => get_last_frequency st end) = true).
+      { subst target. unfold clamp0 in E. destruct (qlt _ q0) eqn:Ec in E; [discriminate|exact E]. }
+      subst target. rewrite (clamp0_pos _ Hp). apply audible_pos; assumption.
+    + destruct (Hneg eq_refl) as (_ & Ht). rewrite Ht. constructor.
+  - apply orb_true_iff in H as [H|H].
+    + rewrite nonpositive_never_tones; [constructor|exact H].
+    + apply andb_true_iff in H as [Hs He].
+      rewrite sweep_tones.
+      assert (Hcs : clamp0 s = s).
+      { apply clamp0_pos. apply qlt_true. apply qle_true in Hs. unfold qhalf, q0 in *. lra. }
+      assert (Hce : clamp0 e = e).
+      { apply clamp0_pos. apply qlt_true. apply qle_true in He. unfold qhalf, q0 in *. lra. }
+      rewrite Hcs, Hce.
+      set (n := Z.max 1 (c_int steps)).
+      apply Forall_forall. intros t Hin. apply in_map_iff in Hin as (fq & Ht & Hin).
+      unfold positives in Hin. apply filter_In in Hin as [Hin _]. unfold sweep_freqs in Hin.
+      apply in_map_iff in Hin as (i & Hfq & Hi).
+      apply in_seq in Hi. subst t fq. apply tone_of_ge1. apply qle_true.
+      apply sweep_freq_ge_half; [apply qle_true; exact Hs|apply qle_true; exact He|subst n; lia|subst n; lia].
+  - cbn [dstep]. unfold melody, score in *. destruct (tlookup name tbl) as [[t0 seq]|]; [|constructor].
+    rewrite melody_loop_events, tones_play_score.
+    apply Forall_forall. intros t Hin. apply in_map_iff in Hin as (fq & Ht & Hin).
+    unfold positives in Hin. apply filter_In in Hin as [Hin Hp].
+    apply in_map_iff in Hin as ([f b] & Hf & Hin). cbn in Hf. subst fq t.
+    rewrite forallb_forall in H. specialize (H _ Hin). cbn in H.
+    apply tone_of_ge1. apply audible_pos; assumption.
+Qed.
+
+(* every melody of the generated table is inside that guard *)
+Lemma generated_melodies_audible :
+  forallb (fun kv => forallb (fun fb => audible_arg (fst fb)) (snd (snd kv))) emitter_melodies = true.
+Proof. vm_compute. reflexivity. Qed.
+
+(* C16_tone_zero_refuted: play_tone(0.25) calls tone(pin, 0) *)
+Lemma tone_zero_refuted :
+  exists pin neg tbl st f, (0 < f)%Q /\ snd (dstep pin neg tbl st (PlayTone f None)) = [Tone pin 0].
+Proof.
+  exists 8, neg_literal, [], (init (Qmake 440 1)), (Qmake 1 4). split; [reflexivity|]. vm_compute. reflexivity.
+Qed.
